@@ -95,7 +95,7 @@ def hasStored (h : HFile) : Bool := (List.range h.tbl.length).any fun f => (arra
 
 /-- `gen_trace_header(t, load_all_headers=loadAll)` -/
 def genTraceHeader (h : HFile) (ilArray : Nat) (st : HSt) (t : Nat) (loadAll : Bool) : HSt × HR :=
-  if h.is3d && !(t < h.grid) then (st, .error .index) else
+  if !(t < h.grid) then (st, .error .index) else     -- (`grid` = n_il·n_xl in 3D, the trace count of a 2D line)
   if h.structured && !loadAll then
     -- 4 bytes per stored array, each array once (duplicates share the value read)
     let ks := (List.range h.tbl.length).filterMap (arrayOf h)
